@@ -160,6 +160,15 @@ class Def:
         self.stmt = stmt
         self.index = index    # position inside a tuple target for 'unpack' / 'for'
 
+    def _key(self):
+        return (self.name, self.kind, id(self.value), id(self.stmt), self.index)
+
+    def __eq__(self, other):
+        return isinstance(other, Def) and self._key() == other._key()
+
+    def __hash__(self):
+        return hash(self._key())
+
     def __repr__(self):
         return f"Def({self.name},{self.kind},{unparse(self.value) if self.value is not None else None})"
 
